@@ -390,7 +390,10 @@ def _check_query(case, mode):
                                 return {"key": "query:latent-parent-accepted", "what": f"{desc}: default adjustment set contains a latent but no ValueError"}
                             bad = _compare(res, spec, Y, want)
                             if bad:
-                                if len(S) > 1 and adj is None and (pa & set(S)):
+                                if len(S) > 1 and adj is None and ((pa - set(S)) & (O.descendants_or_self(spec["edges"], list(S)) - set(S))):
+                                    # a remaining parent is a descendant of another do-variable: known finding K10
+                                    key = "query:multi-do:default-adjustment"
+                                elif len(S) > 1 and adj is None and (pa & set(S)):
                                     key = "query:multi-do:parent-child"
                                 elif len(S) > 1 and adj is None:
                                     key = "query:multi-do:default-adjustment"
